@@ -78,8 +78,21 @@ def gen_case(rnd, tier, ks=None):
     for _ in range(rnd.randint(1, 12 if tier == "quick" else 30)):
         k = rnd.choice(sorted(keys)) if keys and rnd.random() < 0.4 else rk()
         if rnd.random() < 0.65:
-            if rnd.random() < 0.1:
+            r_ = rnd.random()
+            if r_ < 0.1:
                 v = b""   # an explicitly blank value: reads as absent, whatever the default is
+            elif r_ < 0.2:
+                # one-byte values that are somebody's magic number (0x80 = rlp(b''), 0xc0 = rlp([]))
+                v = bytes([rnd.choice([0x00, 0x01, 0x7F, 0x80, 0x81, 0xC0, 0xFF])])
+            elif r_ < 0.3:
+                # a value that IS an interior node of the empty tree at some height (resolved at
+                # run time: two equal child hashes), often given to two sibling keys
+                ops.append(["set", k.to_bytes(ks, "big").hex(), "@empty%d" % rnd.randrange(1, depth + 1)])
+                keys.add(k)
+                if rnd.random() < 0.6:
+                    ops.append(["set", (k ^ 1).to_bytes(ks, "big").hex(), ops[-1][2]])
+                    keys.add(k ^ 1)
+                continue
             else:
                 # 64 bytes is the size of an interior node (two child hashes); 63/65 its neighbours
                 v = bytes([rnd.randrange(1, 256)]) * rnd.choice([1, 2, 31, 32, 33, 40, 63, 64, 64, 65, 300])
@@ -133,6 +146,7 @@ def run_case(case, ctx):
     ref = RefSMT(ks, default)
     smt = cut(SparseMerkleTree, key_size=ks, default=default)
     init = smt.root_hash
+    handed_out = []
     db0 = smt.db     # the database object of the first tree: every re-opening goes through it
     if init != ref.root({}):
         raise Violation("smt-root", "initial root differs from the reference root of the all-default tree")
@@ -155,7 +169,12 @@ def run_case(case, ctx):
             smt = cut(SparseMerkleTree.from_db, db0, smt.root_hash, key_size=ks, default=default)
             ctx.count("reopened_through_from_db")
         if op[0] == "set":
-            v = unhx(op[2])
+            if op[2].startswith("@empty"):
+                d_ = min(int(op[2][6:]), ref.depth)
+                v = ref.dh[d_] + ref.dh[d_]
+                ctx.count("value_is_an_empty_tree_node")
+            else:
+                v = unhx(op[2])
             ctx.count("op_overwrite" if k in m else "op_set_new")
             if v == b"":
                 ctx.count("op_set_blank_default_nonblank" if default else "op_set_blank_default_blank")
@@ -177,6 +196,7 @@ def run_case(case, ctx):
                         1 + next(i for i in range(len(exp)) if upd[i] != exp[i])))
                 raise Violation("smt-returned-hashes", "tuple returned by %s(%s) %s" % (op[0], hx(kb), what))
             ctx.count("returned_hashes_checked")
+            handed_out.append((upd, tuple(upd)))
         probes = set(m) | {base, base ^ 1, base ^ (1 << (depth - 1)), rnd.getrandbits(depth), k}
         audit(smt, ref, m, default, ks, sorted(probes), ctx)
         # the other tree: sometimes written under the same key, always read right after the
@@ -203,6 +223,10 @@ def run_case(case, ctx):
         ctx.shape((ks, default == b"", diffbits, len(m)), len(m) >= 2)
         if len({(base ^ q).bit_length() for q in m}) >= 2:
             ctx.count("bitpos_pairs")
+    # what set/delete handed out earlier is the caller's: it must not change afterwards
+    for obj, was in handed_out:
+        if tuple(obj) != was:
+            raise Violation("smt-returned-hashes", "a tuple of path hashes returned by an earlier set/delete changed after later operations")
     for k in list(m):
         cut(smt.delete, k.to_bytes(ks, "big"))
     if smt.root_hash != init:
